@@ -19,21 +19,25 @@ NsAll   == 0 .. (NsPerSec - 1)
 Pow2 == {4, 32, 256, 512}
 NsCls   == {0, 1, 2, 3, 232, 233, 499, 500, 501, 996, 997, 998, 999}
              \cup {125 * j : j \in 0 .. 7} \cup Pow2 \cup {p - 1 : p \in Pow2} \cup {p + 1 : p \in Pow2}
-NsFew   == {0, 1, 2, 232, 233, 125, 500, 511, 512, 513, 750, 997, 998, 999}
+NsFew   == {0, 1, 2, 232, 233, 234, 125, 500, 511, 512, 513, 750, 997, 998, 999}
 NsGenDp == NsFew \cup {3, 126, 255, 257}
-NsExh   == {0, 1, 233, 500, 511, 513, 998, 999}
+NsExh   == {0, 1, 232, 233, 234, 500, 998, 999}
 
 \* reference classes: every era, positions at / next to the era boundary, the middle
 \* of the era (where the window's ends meet the era boundary) and in between
 PosCls  == {0, 1, 2, 15, 30, 31, 32, 33, 34, 47, 61, 62, 63}
 RefCls  == {r \in RefAll : (r - Epoch) % EraSecs \in PosCls} \cup {0, 1}
-PosFew  == {0, 1, 31, 32, 33, 47, 62, 63}
+PosFew  == {0, 1, 32, 33, 62, 63}
 RefFew  == {r \in RefAll : (r - Epoch) % EraSecs \in PosFew} \cup {0}
 OffCls  == {-33, -32, -31, -30, -17, -2, -1, 0, 1, 2, 15, 29, 30, 31, 32}
 
-RefNsExh == {0, 999}
-RefNsGen == {0, 999}
-RefNsOne == {0}
+\* reference sub-second values: 0, one that loses a nanosecond in the round trip (233),
+\* one that does not (512), the last one; the time classes contain each of them and
+\* their neighbours, so nsec <, =, > nref occurs at both ends of the window
+RefNsExh == {0, 233, 999}
+RefNsDeep == {0, 233, 512, 999}
+RefNsGen == {0, 233, 512, 999}
+RefNsOne == {233}
 
 \* every sub-second value once (evaluated by TLC when the module is loaded)
 AllNs == \A n \in NsAll :
@@ -43,7 +47,7 @@ AllNs == \A n \in NsAll :
 ASSUME AllNs
 
 \* Case emitter (spec -> code): every reachable (reference, time) with the results
-\* of every transcribed operator, for both settings of the era switch.  Seconds of
+\* of every transcribed operator, for the three settings of the era switches.  Seconds of
 \* the results are given relative to the reference second.
 Emit == Chosen =>
   LET x == Encode(t) IN
@@ -51,7 +55,8 @@ Emit == Chosen =>
      r |-> t0[1], rn |-> t0[2], o |-> t[1] - t0[1], n |-> t[2],
      pos |-> (t0[1] - Epoch) % EraSecs, era |-> (t0[1] - Epoch) \div EraSecs,
      s32 |-> x.seconds, frac |-> x.fraction, nsec |-> Nsec(x.fraction),
-     bf |-> DecodeWith(x, t0, TRUE)[1] - t0[1],
-     br |-> DecodeWith(x, t0, FALSE)[1] - t0[1],
+     bf |-> DecodeWith(x, t0, TRUE, TRUE)[1] - t0[1],
+     bw |-> DecodeWith(x, t0, FALSE, TRUE)[1] - t0[1],
+     br |-> DecodeWith(x, t0, FALSE, FALSE)[1] - t0[1],
      judged |-> Judged(t, t0)])>>)
 =============================================================================
